@@ -479,7 +479,14 @@ func runC06(c *core.Ctx) {
 			func(e *core.Event) bool { return e.Kind == core.EvCall && core.RecvFieldOf(e) == "handler.store" && e.Call.Fun.(*ast.SelectorExpr).Sel.Name == "apply" })
 	})
 
-	c.Clause("D5", func() {
+	c.Clause("D5", func() { runTimePredicates(c) })
+
+	c.Clause("D6", func() { runOwnerRoundRobin(c) })
+}
+
+// runTimePredicates: exhaustive truth tables of the shard-group time predicates (shared by C06, C08, C17).
+func runTimePredicates(c *core.Ctx) {
+	{
 		pc := &core.PredCompiler{P: c.P}
 		n := 0
 		check := func(key string, f *core.FuncInfo, x ast.Expr, roles map[string]string, spec *core.BExpr) {
@@ -551,12 +558,27 @@ func runC06(c *core.Ctx) {
 
 		f = c.Fn(metap + ".(*Data).CreateShardGroup")
 		var clip []ast.Expr
-		for _, cd := range ifConds(f) {
-			s := core.ExprStr(cd)
-			if strings.Contains(s, ".After(") && strings.Contains(s, "&&") {
-				clip = append(clip, cd)
+		// the clipping statements: `if <cond> { <local> = <local> }` (startTime = endI / endTime = startI)
+		ast.Inspect(f.Body, func(nd ast.Node) bool {
+			ifs, ok := nd.(*ast.IfStmt)
+			if !ok || ifs.Else != nil || len(ifs.Body.List) != 1 {
+				return true
 			}
-		}
+			as, ok := ifs.Body.List[0].(*ast.AssignStmt)
+			if !ok || as.Tok != token.ASSIGN || len(as.Lhs) != 1 || len(as.Rhs) != 1 {
+				return true
+			}
+			l, lok := as.Lhs[0].(*ast.Ident)
+			r, rok := as.Rhs[0].(*ast.Ident)
+			if !lok || !rok {
+				return true
+			}
+			lt, rt := f.Info().TypeOf(l), f.Info().TypeOf(r)
+			if lt != nil && rt != nil && lt.String() == "time.Time" && rt.String() == "time.Time" {
+				clip = append(clip, ifs.Cond)
+			}
+			return true
+		})
 		c.Need(len(clip) == 2, "two clipping conditions in CreateShardGroup")
 		// locals are numbered in order of first appearance inside each condition
 		check(f.Name+"/clip-start", f, clip[0], map[string]string{`^\$2$`: "t", `^\$l1$`: "endI", `^\$l2$`: "startTime"},
@@ -575,9 +597,12 @@ func runC06(c *core.Ctx) {
 		c.Need(len(conds) == 1, "condition of DeletedShardGroups")
 		check(f.Name+"/deleted", f, conds[0], sgRoles, deleted)
 		c.Floor("time predicates", n, 12)
-	})
+	}
+}
 
-	c.Clause("D6", func() {
+// runOwnerRoundRobin: stride of the owner assignment in CreateShardGroup.
+func runOwnerRoundRobin(c *core.Ctx) {
+	{
 		// owner round-robin in CreateShardGroup: within the replica loop the node index advances by exactly one per
 		// appended owner, and the owner appended is DataNodes[index % len(DataNodes)]
 		f := c.Fn(metap + ".(*Data).CreateShardGroup")
@@ -658,7 +683,7 @@ func runC06(c *core.Ctx) {
 		c.Check("round-robin-stride", f.Name+"/DataNodes[index%len]", f.PosStr(), good, "the owner must be DataNodes[index % len(DataNodes)] with the running index alone")
 		// the shard count loop: shardN*replicaN divisible by the node count
 		// (value formula; matched as the loop condition `shardN*replicaN % len(DataNodes) != 0`)
-	})
+	}
 }
 
 // ifConds lists the conditions of the if statements of f in source order (nested literals excluded).
